@@ -181,6 +181,9 @@ impl StageStats {
                 }
                 None => self.nontrivial_counted += c.nontrivial_units,
             }
+            for e in &c.excluded {
+                *self.excluded.entry(e).or_default() += 1;
+            }
             // plain labels of a block case describe every unit in it
             for l in &c.labels {
                 *self.labels.entry(l).or_default() += c.units;
